@@ -138,6 +138,9 @@ class Images(productmd.common.MetadataBase):
         self.header = Header(self, "productmd.images")
         self.compose = Compose(self)
         self.images = {}
+        # a manifest built from scratch is written in the current format, so
+        # add() has to enforce the rules of that format (unique image identity)
+        self.header.set_current_version()
 
     def __getitem__(self, variant):
         return self.images[variant]
